@@ -136,7 +136,7 @@ CHECKS["C11"] = dict(
         "immediate. NO LIVELOCK (ConcProg.v), for every reachable state of every interleaving without a reader-join timeout: a consumer waiting inside next() at its queue get, stop event unset, "
         "always has a producer (reader, a worker or the sorter; for the Prefetcher the reader) that has not finished and whose next data-path primitive is enabled - the awaited entry is in flight "
         "exactly once (coverage invariant) or the reader can produce it; after the terminal entry the next next() does not wait. BOUNDED WORK: a rank rho that no move of any thread increases, in any "
-        "state, and every successful data-path move strictly decreases. Tie to the code: scheduler-driven lockstep with failing sources / map functions and repeated next() after errors and end of stream; deadlock under the scheduler or "
+        "state, and every successful data-path move strictly decreases. FAILURES SURFACE AT THE RIGHT PLACE: what next() is about to return (item, map_fn error, source error, end) is what the mapped source holds at the consumer's position. Tie to the code: scheduler-driven lockstep with failing sources / map functions and repeated next() after errors and end of stream; deadlock under the scheduler or "
         "an exhausted step budget is a hang; process workers SIGKILLed in map_fn or while idle, and real-time runs, under a per-call deadline. Oracle: errors surface at the failing "
         "position after the preceding items, never a clean StopIteration in their place; every call returns.",
    design="DESIGN.md 4 C11",
